@@ -305,7 +305,18 @@ def writer_escapes(ctx, s, nice_name, out_local_name="output", data_preds=None):
                   % ", ".join("0x%02x" % c for c in unsafe[:8]), b)
             flagged = True
             continue
-        bad.append((b, info))
+        # positive evidence that the bytes are event/filter data (a tag string, the content, an iterator item over them);
+        # a local buffer filled by some other call (hex digits, a formatted number) is not judged here
+        core = src
+        while core[0] in ("ref", "byref", "unsize") and isinstance(core[1], tuple):
+            core = core[1]
+        local_buffer = core[0] == "local" or (core[0] in ("slice", "slicefrom", "sliceto") and core[1][0] == "local")
+        if any(_has_data(x) for x in allv) or _has_data(src) or _has_data(srcv) or not local_buffer:
+            bad.append((b, info))
+        else:
+            s.add("S-ESCFLOW", fn, "raw-data-in-json", s.show(info["args"][-1], fn)[:60], info["sp"], UNDECIDED,
+                  "what is appended here was not recognised as constant text, escaped data or a formatted value: not decided", b)
+            flagged = True
     for b, info in bad:
         s.add("S-ESCFLOW", fn, "raw-data-in-json", s.show(info["args"][-1], fn)[:60], info["sp"], VIOLATION,
               "event/filter data is appended to JSON output without passing through json_escape", b)
@@ -376,8 +387,12 @@ def bulk_scan_guard(ctx, s, fn, b, src=None):
 
 
 def _has_data(v):
+    if not isinstance(v, tuple):
+        return False
     return contains_value(v, lambda x: x[0] == "call" and x[1].startswith("pocket_types::tags::") and x[1].rsplit("::", 1)[-1] in ("next", "get_string", "get_value")) or \
-        contains_value(v, lambda x: x[0] == "call" and x[1].endswith("::content"))
+        contains_value(v, lambda x: x[0] == "call" and x[1].endswith("::content")) or \
+        contains_value(v, lambda x: x[0] in ("slice", "slicefrom", "sliceto", "elem") and
+                       contains_value(x[1], lambda y: y == ("param", 1)))
 
 
 UNESCAPE = "pocket_types::json::json_escape::json_unescape"
@@ -575,8 +590,19 @@ def raw_input_copies(ctx, s, names):
             if g == "?":
                 verdict, why = UNDECIDED, "a piece of the input is copied without json_unescape under a scan whose predicate could not be evaluated: not decided"
             elif g is None:
-                verdict, why = VIOLATION, ("a piece of the JSON text is copied into the packed form as it stands, without json_unescape and "
-                                           "without a scan of its bytes: an escape in it is stored undecoded")
+                core = hit[0]
+                while core[0] in ("ref", "byref", "unsize") and isinstance(core[1], tuple):
+                    core = core[1]
+                bounds = [x for x in core[2:] if isinstance(x, tuple)]
+                scanned = any(contains_value(x, lambda y: y[0] in ("phi", "call", "proj")) for x in bounds)
+                if scanned:
+                    # the extent of the piece was computed by code that looked at the bytes (a loop, a search): how far it
+                    # lets them through is not read off here
+                    verdict, why = UNDECIDED, ("a piece of the input is copied without json_unescape; its extent comes from a scan "
+                                               "whose predicate was not recognised: not decided")
+                else:
+                    verdict, why = VIOLATION, ("a piece of the JSON text is copied into the packed form as it stands, without "
+                                               "json_unescape and without a scan of its bytes: an escape in it is stored undecoded")
             else:
                 unsafe = sorted(c for c in g if c < 0x20 or c in (0x22, 0x5C))
                 if unsafe:
